@@ -33,14 +33,47 @@ def _apps_of(terms, names):
     return out
 
 
+def _indexed_fold_apps(terms, names):
+    """Fold applications that occur as the sequence argument of an element access."""
+    out = []
+    seen = set()
+    stack = list(terms)
+    while stack:
+        t = stack.pop()
+        i = t.get_id()
+        if i in seen:
+            continue
+        seen.add(i)
+        if z3.is_app(t):
+            if t.decl().name() in ("AT", "seq.nth", "seq.nth_i", "seq.nth_u") and t.num_args() == 2:
+                a = t.arg(0)
+                if z3.is_app(a) and a.decl().name() in names and a.num_args() == 2 and \
+                        a.get_id() not in {x.get_id() for x in out}:
+                    out.append(a)
+            stack.extend(t.children())
+        elif z3.is_quantifier(t):
+            stack.append(t.body())
+    return out
+
+
 def fold_instances(ctx, terms, rounds=2):
     """Ground instances of the defining equations of the fold symbols occurring in `terms`."""
     facts = []
     done = set()
     cur = list(terms)
-    for _ in range(rounds):
+    indexed = _indexed_fold_apps(terms, set(ctx.folds))
+    for rnd in range(rounds):
         apps = _apps_of(cur, set(ctx.folds))
         new = []
+        if rnd == 0:
+            # a comprehension that is indexed directly (xs[-1], xs[0]): peel its last and first iteration
+            for a in indexed:
+                fi = ctx.folds[a.decl().name()]
+                lo, hi = a.arg(0), a.arg(1)
+                if fi.kind in ("seq", "str"):
+                    for m in (simp(hi - 1), simp(lo + 1)):
+                        new += [z3.Implies(lo < hi, c) for c in _split_fact(ctx, fi, lo, m, hi)]
+                    new += [z3.Implies(lo < hi - 1, c) for c in _split_fact(ctx, fi, lo, simp(hi - 2), simp(hi - 1))]
         for name, alist in apps.items():
             fi = ctx.folds[name]
             uniq = []
@@ -209,7 +242,7 @@ def discharge(ctx, ob, timeout_ms=10000, portfolio=True):
     r = s.check()
     if r != z3.unsat:
         # induction lemma: folds over the same range whose pieces agree point-wise are equal
-        lem = pointwise_lemmas(ctx, hyps, hyps + inst + [ob.goal], timeout_ms)
+        lem = pointwise_lemmas(ctx, hyps + inst, hyps + inst + [ob.goal], timeout_ms)
         lem += char_absence_lemmas(ctx, hyps, hyps + inst + [ob.goal], timeout_ms)
         if lem:
             inst += lem
@@ -451,11 +484,14 @@ def pointwise_lemmas(ctx, hyps, terms, timeout_ms):
     names = sorted(apps)
     out = []
     K = z3.Int("K!pw")
+    t_end = time.time() + max(60, timeout_ms / 1000 * 6)      # whole-lemma budget per obligation
     for i, a in enumerate(names):
         for b in names[i + 1:]:
             fa, fb = ctx.folds[a], ctx.folds[b]
             if fa.kind != fb.kind or fa.fn.range() != fb.fn.range():
                 continue
+            if time.time() > t_end:
+                return out
             # pairs of applications over (provably) the same range
             pairs = []
             for x in apps[a]:
@@ -476,7 +512,7 @@ def pointwise_lemmas(ctx, hyps, terms, timeout_ms):
                     s.add(z3.substitute(f, (fb.K0, K)))
                 s.add(lo <= K, K < hi, pa != pb)
                 ok = s.check() == z3.unsat
-                if not ok:
+                if not ok and fa.kind in ("seq", "str", "set") and time.time() < t_end:
                     side = list(hyps) + [lo == y.arg(0), hi == y.arg(1), lo <= K, K < hi]
                     side += [z3.substitute(f, (fa.K0, K)) for f in fa.facts] + [z3.substitute(f, (fb.K0, K)) for f in fb.facts]
                     ok = equal_by_cases(side, pa, pb, {"leaves": 3000, "deadline": time.time() + max(20, timeout_ms / 1000 * 3)})
